@@ -248,6 +248,7 @@ func init() {
 			return nil
 		},
 	}
+	registerABIPrims()
 }
 
 func (i *interpreter) intVar(name string, k types.BasicKind) value {
